@@ -67,11 +67,14 @@ def run_one(cfg, prefix, expect=None):
     fail_cls = cfg.get("fail_cls", "runtime")
     latency = cfg.get("latency", 0.0)
     after = cfg.get("after", "")  # ops every producer issues after it first saw the failure
+    paged_at = cfg.get("paged_at")   # 1-based API call whose response is paginated (one further page to fetch)
+    state_fail = cfg.get("state_fail", False)   # the follow-up GetDurableExecutionState call fails
 
     ex = core.Exec(prefix=prefix, policy=cfg.get("policy", "rtb"), horizon=cfg.get("horizon", 40.0),
-                   timer_choices=cfg.get("timer", True), expect=expect, max_steps=60000,
+                   timer_choices=cfg.get("timer", True), expect=expect, max_steps=60000, stall_menu=cfg.get("stall"),
                    line_files=_line_files() if cfg.get("line") else None)
     calls = []   # API calls: dict(tick, token, ids, sizes, failed)
+    state_calls = []
     events = []  # producer-side: (kind, pid, idx, tick, extra)
     failure = {"exc": None, "tick": None}
 
@@ -90,11 +93,19 @@ def run_one(cfg, prefix, expect=None):
                 failure["exc"] = make_failure(fail_cls)
                 failure["tick"] = rec["tick"]
                 raise failure["exc"]
+            marker = "page2" if paged_at is not None and n == paged_at else None
             return CheckpointOutput(checkpoint_token=f"tok{n}",
-                                    new_execution_state=CheckpointUpdatedExecutionState())
+                                    new_execution_state=CheckpointUpdatedExecutionState(next_marker=marker))
 
-        def get_execution_state(self, *a, **k):  # pragma: no cover - no pagination here
-            raise AssertionError("unexpected get_execution_state")
+        def get_execution_state(self, durable_execution_arn=None, checkpoint_token=None, next_marker=None, **k):
+            from aws_durable_execution_sdk_python.lambda_service import StateOutput
+            ex.point()
+            state_calls.append({"tick": ex.next_tick(), "token": checkpoint_token, "marker": next_marker})
+            if state_fail:
+                failure["exc"] = make_failure(fail_cls)
+                failure["tick"] = ex.next_tick()
+                raise failure["exc"]
+            return StateOutput(operations=[], next_marker=None)
 
     state_box = {}
 
@@ -202,7 +213,7 @@ def judge_stream(cfg, ex, calls, events):
             meta[(pid, idx)] = extra
         elif kind in ("return", "raise"):
             ret[(pid, idx)] = (kind, tick, extra)
-    failing = cfg.get("fail_at") is not None
+    failing = cfg.get("fail_at") is not None or cfg.get("state_fail")
     for key, (kind, tick, extra) in ret.items():
         if kind == "raise" and not (failing and extra.get("type") == "BackgroundThreadError"):
             V("unexpected-error", f"create_checkpoint {key} raised {extra}")
